@@ -1050,6 +1050,14 @@ def run(tier):
     chk.guard(rule_r3, chk, prog)
     chk.guard(rule_r4, chk, prog)
     chk.guard(rule_r5, chk, prog)
+    # "copying yields an equal tree with fresh identities": reduplicate is
+    # the copy that re-establishes them (shared with C13.R2-R4)
+    from . import c13
+    sub13 = Check('C13', 'other', tier, [], [])
+    chk.guard(c13.rule_r234, sub13, prog)
+    chk.adopt('C12.R6', 're-duplication rebuilds exactly the nodes whose '
+              'identity (or a child\'s object) changed and keeps the text '
+              '(shared with C13.R2-R4)', sub13)
     extra = None
     if tier == 'thorough':
         from .. import selftest
